@@ -213,7 +213,37 @@ pub open spec fn is_wild_tree(t: STree) -> bool { t matches STree::Term(SAtom::W
 // ASSUMED (soundness of canonical keys, i.e. the "only if" direction of property C09, in its semantic form):
 // two preprocessed trees with the same canonical text have renamings of the same shape, and (for at most one
 // variable name) their semantics differ exactly by moving that variable's slot
-pub axiom fn axiom_key_sound(t: STree, n: STree, l: ISet<Pt>)
+pub axiom fn axiom_key_sound_core(t: STree, n: STree, l: ISet<Pt>)
+    requires tree_pre(t), tree_pre(n), canon_str(render(t)) == canon_str(render(n)), small(canon_map(render(t)))
+    ensures
+        small(canon_map(render(n))),
+        (forall|a: Seq<char>| !canon_map(render(t)).contains_key(a)) <==> (forall|b: Seq<char>| !canon_map(render(n)).contains_key(b)),
+        (forall|a: Seq<char>| !canon_map(render(t)).contains_key(a)) ==> sem(n, l) == sem(t, l),
+        forall|a: Seq<char>, b: Seq<char>| #![trigger canon_map(render(t)).contains_key(a), canon_map(render(n)).contains_key(b)]
+            canon_map(render(t)).contains_key(a) && canon_map(render(n)).contains_key(b) ==> (
+                canon_map(render(t))[a] == canon_map(render(n))[b] && valid_name(a) && valid_name(b)
+                && (a == b <==> slot_name(a) == slot_name(b))
+                && (forall|p: Pt| shaped(p) ==> (sem(n, l).contains(p) <==> #[trigger] sem(t, l).contains(with_slot(p, slot_name(a), p.e[slot_name(b)])))));
+// PROVED part: a wild-card proposition shares its canonical text only with itself (from the scanner specification)
+pub proof fn lemma_key_wild(t: STree, n: STree)
+    requires tree_pre(t), tree_pre(n), canon_str(render(t)) == canon_str(render(n))
+    ensures is_wild_tree(t) == is_wild_tree(n)
+{
+    reveal_strlit("%");
+    if is_wild_tree(t) {
+        let p = t->Term_0->Wild_0;
+        lemma_canon_wild(p);
+        assert(render(t) == wc_key(p));
+        lemma_canon_not_wild(n, p);
+    }
+    if is_wild_tree(n) {
+        let p = n->Term_0->Wild_0;
+        lemma_canon_wild(p);
+        assert(render(n) == wc_key(p));
+        lemma_canon_not_wild(t, p);
+    }
+}
+pub proof fn axiom_key_sound(t: STree, n: STree, l: ISet<Pt>)
     requires tree_pre(t), tree_pre(n), canon_str(render(t)) == canon_str(render(n)), small(canon_map(render(t)))
     ensures
         small(canon_map(render(n))),
@@ -224,7 +254,11 @@ pub axiom fn axiom_key_sound(t: STree, n: STree, l: ISet<Pt>)
             canon_map(render(t)).contains_key(a) && canon_map(render(n)).contains_key(b) ==> (
                 canon_map(render(t))[a] == canon_map(render(n))[b] && valid_name(a) && valid_name(b)
                 && (a == b <==> slot_name(a) == slot_name(b))
-                && (forall|p: Pt| shaped(p) ==> (sem(n, l).contains(p) <==> #[trigger] sem(t, l).contains(with_slot(p, slot_name(a), p.e[slot_name(b)])))));
+                && (forall|p: Pt| shaped(p) ==> (sem(n, l).contains(p) <==> #[trigger] sem(t, l).contains(with_slot(p, slot_name(a), p.e[slot_name(b)])))))
+{
+    axiom_key_sound_core(t, n, l);
+    lemma_key_wild(t, n);
+}
 // a cached value: either a wild-card proposition (raw user set) or the result of a sub-formula, valid inside the
 // unit set `w` of the graph it was computed on
 pub open spec fn entry_wild(k: FormulaWithDomains, v: (GraphColoredVertices, VarRenameMap)) -> bool {
